@@ -66,6 +66,7 @@ type termPool struct {
 	tab  map[string]*Term
 	next int
 	vars []*Term
+	all  []*Term // by id
 }
 
 func newTermPool() *termPool { return &termPool{tab: map[string]*Term{}} }
@@ -91,6 +92,7 @@ func (p *termPool) mk(op string, sort Sort, args ...*Term) *Term {
 		t.ctree = true
 	}
 	p.next++
+	p.all = append(p.all, t)
 	p.tab[key] = t
 	return t
 }
@@ -102,6 +104,7 @@ func (p *termPool) Var(name string, sort Sort) *Term {
 	}
 	t := &Term{id: p.next, op: "var", sort: sort, name: name, size: 1}
 	p.next++
+	p.all = append(p.all, t)
 	p.tab[key] = t
 	p.vars = append(p.vars, t)
 	return t
@@ -122,6 +125,7 @@ func (p *termPool) BV(v uint64, w int) *Term {
 	}
 	t := &Term{id: p.next, op: "const", sort: bvSort(w), val: v, size: 1, ctree: true}
 	p.next++
+	p.all = append(p.all, t)
 	p.tab[key] = t
 	return t
 }
@@ -137,6 +141,7 @@ func (p *termPool) Bool(b bool) *Term {
 	}
 	t := &Term{id: p.next, op: "const", sort: boolSort, val: v, size: 1, ctree: true}
 	p.next++
+	p.all = append(p.all, t)
 	p.tab[key] = t
 	return t
 }
@@ -152,6 +157,7 @@ func (p *termPool) FP(bitsv uint64, w int) *Term {
 	}
 	t := &Term{id: p.next, op: "const", sort: s, val: bitsv, size: 1}
 	p.next++
+	p.all = append(p.all, t)
 	p.tab[key] = t
 	return t
 }
